@@ -394,13 +394,13 @@ pub fn run(ctx: &Ctx) -> Report {
         &format!("word-sequences[{}]", ctx.variant),
         "8- and 16-bit bus, 1..3 words per pixel, 1..6 ops of send_command / send_pixels / send_repeated_pixel with words biased to equal consecutive values, single-bit differences and all-equal pixels, repeat counts 0..300; oracle: (D/C, data pins) sampled at every WR rising edge == instruction (D/C low), parameters, pixel words (D/C high) exactly, no undefined pin sampled; non-trivial = equal consecutive words or an all-equal repeated pixel",
     );
-    run_generated(&mut sec, ctx.seed, ctx.cases(60_000, 2_000_000), ctx.workers, strategy, check, sig);
+    run_generated(&mut sec, ctx.seed, ctx.cases(300_000, 8_000_000), ctx.workers, strategy, check, sig);
     rep.sections.push(sec);
     let mut sec = Section::new(
         &format!("set-value-histories[{}]", ctx.variant),
         "histories of OutputBus::set_value on Generic8BitBus/Generic16BitBus with a single data-pin failure injected at generated steps; invariant after every successful call: pin levels == value; non-trivial = a failure followed by a value equal to the cached or the attempted one",
     );
-    run_generated(&mut sec, ctx.seed ^ 7, ctx.cases(100_000, 3_000_000), ctx.workers, bus_strategy, check_bus, |c, _| format!("c07:bus:{}", if c.wide { 16 } else { 8 }));
+    run_generated(&mut sec, ctx.seed ^ 7, ctx.cases(500_000, 12_000_000), ctx.workers, bus_strategy, check_bus, |c, _| format!("c07:bus:{}", if c.wide { 16 } else { 8 }));
     rep.sections.push(sec);
     {
         let mut sec = Section::new(
